@@ -60,7 +60,7 @@ def _mk(family, chunked):
     return ob
 
 
-for _f in ('http', 'json', 'soap11', 'xml'):
+for _f in ('http', 'json', 'soap11', 'xml', 'msgpackrpc'):
     for _ch in (True, False):
         _mk(_f, _ch)
 
